@@ -403,6 +403,7 @@ static void product_code(Dig& d, const CodeHolder& code, bool with_bytes = true)
   for (Section* s : code.sections()) {
     if (!s) { d.u64(0xDEAD); continue; }
     d.u64(s->alignment()); d.u64(s->offset());
+    d.u64(s->virtual_size());             // part of the layout: decides code_size() and what a copy zero-fills
     if (with_bytes) d.bytes(s->data(), s->buffer_size()); else d.u64(s->buffer_size());
   }
 }
@@ -418,7 +419,20 @@ struct W1 : Workload {
   a64::Assembler aa;
   ErrH eh;
   std::vector<uint8_t> image;
-  explicit W1(Arch a) : arch(a) {}
+  int left = -1;      // arena phase: before each absolute call/jmp the holder's arena is drained to `left` bytes
+  explicit W1(Arch a, int l = -1) : arch(a), left(l) {}
+  // Arena requests only reach the heap when a block is exhausted, so WHICH request of a call meets the injected failure
+  // depends on the arena's fill level ("phase").  Draining is not an API step of the workload: it is repeated identically
+  // in the clean run and made with failure injection suspended.
+  void drain(Rec& R) {
+    if (left < 0 || !code.is_initialized()) return;
+    bool was = E.armed; E.armed = false;
+    size_t rem = code.arena().remaining_size();
+    if (rem < size_t(left)) { (void)code.arena().alloc_oneshot<uint8_t>(rem & ~size_t(7)); (void)code.arena().alloc_oneshot<uint8_t>(64); rem = code.arena().remaining_size(); }
+    size_t take = (rem - size_t(left)) & ~size_t(7);
+    if (take) (void)code.arena().alloc_oneshot<uint8_t>(take);
+    E.armed = was;
+  }
   bool x86() const { return arch == Arch::kX64; }
   BaseAssembler& as() { return x86() ? static_cast<BaseAssembler&>(xa) : static_cast<BaseAssembler&>(aa); }
 
@@ -472,8 +486,11 @@ struct W1 : Workload {
       S("emit.dec", xa.dec(x86::ecx));
       S("emit.jnz.back", xa.jnz(local));
       S("emit.jmp.back", xa.jmp(LB));
+      drain(R);
       S("emit.call.abs", xa.call(Imm(0x7FFF12345678ull)));
+      drain(R);
       S("emit.jmp.abs", xa.jmp(Imm(0x7FFF23456789ull)));
+      drain(R);
       S("emit.call.abs2", xa.call(Imm(0x7FFF12345678ull)));
       S("emit.mov.abs", xa.mov(x86::rax, x86::ptr(uint64_t(0x123456))));
     }
@@ -1254,6 +1271,7 @@ struct W8 : Workload {
 static const char* kWorkloads[] = {"W1x64", "W1a64", "W2", "W3", "W4", "W4dual", "W5", "W6", "W7", "W8"};
 static Workload* make_workload(const std::string& n) {
   if (n == "W1x64") return new W1(Arch::kX64);
+  if (n.compare(0, 6, "W1x64p") == 0) return new W1(Arch::kX64, atoi(n.c_str() + 6));
   if (n == "W1a64") return new W1(Arch::kAArch64);
   if (n == "W2") return new W2();
   if (n == "W3") return new W3();
